@@ -125,11 +125,12 @@ SOLVER_NAMES = ("Cadical153", "Cadical", "Cadical103", "Cadical195", "Glucose3",
 
 def pipeline_package(repo, polarity, full_stack=False):
     P = Package(repo, full_stack=full_stack)
-    env = P.env("sat.py")
     cls = make_solver_class(polarity)
+    # wherever the package imports the solver (sat.py today; a helper module after a refactoring) it gets the solver model
+    P.import_overrides = {f"pysat.solvers.{nm}": cls for nm in SOLVER_NAMES}
+    env = P.env("sat.py")
     imp = dict(env["__imports__"])
-    for nm in SOLVER_NAMES:
-        imp[f"pysat.solvers.{nm}"] = cls
+    imp.update(P.import_overrides)
     env["__imports__"] = imp
     return P
 
